@@ -14,6 +14,10 @@ a configured bound (all as REPAIRED by the `fix:` commits of this property unles
 | `code` | `conncode.Service.CreateConnectionCode` (+ `repos.ConnectionCodeRepository`) | `codeQuotaMu.Lock`; `GetList(index)` = n ids; n × `GetByID`; check; `GetByCode`, `Set`, `Set`; `AppendToList(index)`; unlock (`mutex`, `cnt n = n`, `mid = 3`, `final = plain`) |
 | `mapq` | `conncode.Service.ActivateConnectionCode` | `mappingQuotaMu.Lock`; `GetClientPortMappings` + count + check; `CreatePortMapping`; unlock |
 
+A request that finds the mutex held queues up (`PC.waiting`, one `blk` event per scheduled step while
+it waits) and is handed the mutex by the holder's `Unlock()` in arrival order (`handover`); `Op.other`
+is a request of another client going through the same service instance and the same mutex.
+
 Atomic step = one storage operation / one map operation under its lock / one atomic instruction /
 one call of an injectable collaborator.  The occupancy is the list of admitted items, oldest first
 (items are numbered in admission order, so the list is ascending).  The schedule, the limit, the
@@ -36,21 +40,29 @@ structure Proto where
   mid : Nat           -- operations between the passed check and the final step
   final : Final
   zeroUnl : Bool      -- `limit > 0 &&` guard present: 0 means unlimited
+  fused : Bool := false   -- `Lock()` is not a step of its own: the first step runs from the lock to the first gate
+                          -- INSIDE the critical section (`ClientRegistry.Register` with a gated `Close()` of the victim)
+  sections : Nat := 1     -- fused evict protocol: 1 = check + evict + `Close()` + insert in ONE critical section;
+                          -- 2 = check + evict, unlock, `Close()`, lock, insert without re-check
 
 /-- The refusal condition as written in Go: `[max > 0 &&] n >= max`. -/
 def full (P : Proto) (limit n : Nat) : Bool :=
   (!P.zeroUnl || decide (0 < limit)) && decide (limit ≤ n)
 
 inductive Op where
-  | acquire      -- one admission request
+  | acquire    -- one admission request
   | release    -- give back what this thread was admitted with last (close / delete), one step
+  | other      -- an admission request of ANOTHER client: same protocol, same mutex, not counted here
 deriving DecidableEq, Repr
 
 inductive PC where
   | idle                      -- between operations / before the first step of an admission
+  | waiting                   -- blocked in `Lock()` of the instance mutex (queued, FIFO hand-over)
   | locked                    -- holds the instance mutex, about to read
   | counting (snap k : Nat)   -- occupancy `snap` read, `k` more storage reads before the check
   | passed (snap k : Nat)     -- check passed on `snap`, `k` more operations before the final step
+  | noise (k : Nat)           -- request of another client past its check, `k` more operations
+  | evicting (v : Nat)        -- inside the victim's `Close()`, about to insert
 deriving DecidableEq, Repr
 
 structure Thread where
@@ -67,12 +79,14 @@ inductive Ev where
   | ref (tid : Nat) (dirty : Bool) (n : Nat)        -- refused; `dirty` = the request changed state
   | rel (tid item n : Nat)
   | nop (tid n : Nat)                               -- release with nothing to release
+  | evi (tid victim n : Nat)                        -- the victim left the map in a step of its own (two-section variant)
 deriving DecidableEq, Repr
 
 structure Cfg where
   occ : List Nat          -- admitted items, oldest first
   next : Nat              -- next fresh item
   locks : List Nat        -- instances whose mutex is held
+  waitq : List Nat        -- threads blocked in `Lock()`, in arrival order
   threads : Nat → Thread
   trace : List Ev
 
@@ -80,25 +94,39 @@ def upd (ts : Nat → Thread) (i : Nat) (t : Thread) : Nat → Thread := fun j =
 
 def finishOp (t : Thread) : Thread := { t with ops := t.ops.tail, pc := .idle }
 
-def unlock (P : Proto) (locks : List Nat) (inst : Nat) : List Nat :=
-  if P.mutex then locks.erase inst else locks
+/-- `Unlock()` of the mutex of `inst`: the first thread waiting for it gets it (sync.Mutex wakes
+waiters in arrival order and nobody else is running), otherwise it becomes free. -/
+def handover (c : Cfg) (inst : Nat) : Cfg :=
+  match c.waitq.find? (fun t => decide ((c.threads t).pc = .waiting) && decide ((c.threads t).inst = inst)) with
+  | some t => { c with threads := upd c.threads t { c.threads t with pc := .locked },
+                       waitq := c.waitq.filter (fun x => x != t) }
+  | none => { c with locks := c.locks.erase inst }
+
+def unlockCfg (P : Proto) (c : Cfg) (inst : Nat) : Cfg := if P.mutex then handover c inst else c
 
 /-- Intermediate step: only the thread (and possibly the lock set) changes. -/
 def stpCfg (c : Cfg) (tid : Nat) (t : Thread) (locks : List Nat) : Cfg :=
   { c with locks := locks, threads := upd c.threads tid t, trace := c.trace ++ [.stp tid c.occ.length] }
 
 /-- The request is refused: nothing but the caller's own control state changes. -/
-def refuseCfg (P : Proto) (c : Cfg) (tid : Nat) : Cfg :=
-  { c with locks := unlock P c.locks (c.threads tid).inst,
-           threads := upd c.threads tid (finishOp (c.threads tid)),
+def refuseCore (c : Cfg) (tid : Nat) : Cfg :=
+  { c with threads := upd c.threads tid (finishOp (c.threads tid)),
            trace := c.trace ++ [.ref tid false c.occ.length] }
 
+def refuseCfg (P : Proto) (c : Cfg) (tid : Nat) : Cfg := unlockCfg P (refuseCore c tid) (c.threads tid).inst
+
 /-- The request is admitted into `base` (the occupancy, possibly minus an evicted victim). -/
-def admitCfg (P : Proto) (c : Cfg) (tid : Nat) (base : List Nat) (victim : Option Nat) : Cfg :=
+def admitCore (c : Cfg) (tid : Nat) (base : List Nat) (victim : Option Nat) : Cfg :=
   { c with occ := base ++ [c.next], next := c.next + 1,
-           locks := unlock P c.locks (c.threads tid).inst,
            threads := upd c.threads tid { finishOp (c.threads tid) with own := some c.next },
            trace := c.trace ++ [.adm tid c.next victim (base.length + 1)] }
+
+def admitCfg (P : Proto) (c : Cfg) (tid : Nat) (base : List Nat) (victim : Option Nat) : Cfg :=
+  unlockCfg P (admitCore c tid base victim) (c.threads tid).inst
+
+/-- A request of another client is over (admitted or refused there): only the mutex is released. -/
+def doneCfg (P : Proto) (c : Cfg) (tid : Nat) : Cfg :=
+  unlockCfg P (stpCfg c tid (finishOp (c.threads tid)) c.locks) (c.threads tid).inst
 
 def finalStep (P : Proto) (limit : Nat) (c : Cfg) (tid snap : Nat) : Cfg :=
   match P.final with
@@ -126,9 +154,55 @@ def readStep (P : Proto) (limit : Nat) (c : Cfg) (tid : Nat) : Cfg :=
     else stpCfg c tid { c.threads tid with pc := .counting c.occ.length (P.cnt c.occ.length) } c.locks
   else finalStep P limit c tid c.occ.length
 
+/-- The same for a request of another client: that client has nothing yet (occupancy 0, no record reads). -/
+def noiseStep (P : Proto) (limit : Nat) (c : Cfg) (tid : Nat) : Cfg :=
+  if P.early then
+    if full P limit 0 then doneCfg P c tid
+    else stpCfg c tid { c.threads tid with pc := .noise P.mid } c.locks
+  else doneCfg P c tid
+
+def holdLock (locks : List Nat) (inst : Nat) : List Nat := if inst ∈ locks then locks else inst :: locks
+
+/-- The victim leaves the map, the lock is released, the thread goes on into `Close()` (two sections). -/
+def evictCore (c : Cfg) (tid v : Nat) : Cfg :=
+  { c with occ := c.occ.erase v,
+           threads := upd c.threads tid { c.threads tid with pc := .evicting v },
+           trace := c.trace ++ [.evi tid v (c.occ.erase v).length] }
+
+/-- Fused evict protocol from the moment the registry lock is held: check, pick the victim, run into
+its `Close()` (a gate of the harness) — or refuse / insert right away. -/
+def evictEnter (P : Proto) (limit : Nat) (c : Cfg) (tid : Nat) : Cfg :=
+  if full P limit c.occ.length then
+    match c.occ with
+    | [] => refuseCfg P c tid
+    | v :: _ =>
+      if P.sections ≤ 1 then
+        stpCfg c tid { c.threads tid with pc := .evicting v } (holdLock c.locks (c.threads tid).inst)
+      else unlockCfg P (evictCore c tid v) (c.threads tid).inst
+  else admitCfg P c tid c.occ none
+
+/-- `Close()` of the victim returned: insert (one section: the victim leaves the map in the same
+critical section; two sections: plain insert in a second critical section, no re-check). -/
+def evictFinish (P : Proto) (c : Cfg) (tid v : Nat) : Cfg :=
+  if P.sections ≤ 1 then admitCfg P c tid (c.occ.erase v) (some v)
+  else admitCfg P c tid c.occ none
+
 def nopCfg (c : Cfg) (tid : Nat) : Cfg :=
   { c with threads := upd c.threads tid { finishOp (c.threads tid) with own := none },
            trace := c.trace ++ [.nop tid c.occ.length] }
+
+def blkCfg (c : Cfg) (tid : Nat) : Cfg := { c with trace := c.trace ++ [.blk tid c.occ.length] }
+
+/-- The thread queues up in `Lock()`. -/
+def waitCfg (c : Cfg) (tid : Nat) : Cfg :=
+  { c with threads := upd c.threads tid { c.threads tid with pc := .waiting },
+           waitq := c.waitq ++ [tid],
+           trace := c.trace ++ [.blk tid c.occ.length] }
+
+/-- `Lock()`: take the free mutex, or queue up behind its holder. -/
+def lockStep (c : Cfg) (tid : Nat) : Cfg :=
+  if (c.threads tid).inst ∈ c.locks then waitCfg c tid
+  else stpCfg c tid { c.threads tid with pc := .locked } ((c.threads tid).inst :: c.locks)
 
 /-- One atomic step of thread `tid`. -/
 def stepThread (P : Proto) (limit : Nat) (c : Cfg) (tid : Nat) : Cfg :=
@@ -147,11 +221,12 @@ def stepThread (P : Proto) (limit : Nat) (c : Cfg) (tid : Nat) : Cfg :=
     match (c.threads tid).pc with
     | .idle =>
       if P.mutex then
-        if (c.threads tid).inst ∈ c.locks then
-          { c with trace := c.trace ++ [.blk tid c.occ.length] }
-        else stpCfg c tid { c.threads tid with pc := .locked } ((c.threads tid).inst :: c.locks)
+        if P.fused then
+          if (c.threads tid).inst ∈ c.locks then waitCfg c tid else evictEnter P limit c tid
+        else lockStep c tid
       else readStep P limit c tid
-    | .locked => readStep P limit c tid
+    | .waiting => blkCfg c tid
+    | .locked => if P.fused then evictEnter P limit c tid else readStep P limit c tid
     | .counting snap k =>
       if k ≤ 1 then checkStep P limit c tid snap
       else stpCfg c tid { c.threads tid with pc := .counting snap (k - 1) } c.locks
@@ -159,6 +234,20 @@ def stepThread (P : Proto) (limit : Nat) (c : Cfg) (tid : Nat) : Cfg :=
       match k with
       | 0 => finalStep P limit c tid snap
       | k' + 1 => stpCfg c tid { c.threads tid with pc := .passed snap k' } c.locks
+    | .noise _ => c
+    | .evicting v => if P.fused then evictFinish P c tid v else c
+  | .other :: _ =>
+    match (c.threads tid).pc with
+    | .idle => if P.mutex then lockStep c tid else noiseStep P limit c tid
+    | .waiting => blkCfg c tid
+    | .locked => noiseStep P limit c tid
+    | .noise k =>
+      match k with
+      | 0 => doneCfg P c tid
+      | k' + 1 => stpCfg c tid { c.threads tid with pc := .noise k' } c.locks
+    | .counting _ _ => c
+    | .passed _ _ => c
+    | .evicting _ => c
 
 def run (P : Proto) (limit : Nat) (c : Cfg) (σ : List Nat) : Cfg := σ.foldl (stepThread P limit) c
 
@@ -172,24 +261,30 @@ def mkThreads (progs : List (Nat × List Op)) : Nat → Thread :=
 
 /-- `pre` items `0..pre-1` are already admitted. -/
 def init (pre : Nat) (progs : List (Nat × List Op)) : Cfg :=
-  ⟨List.range pre, pre, [], mkThreads progs, []⟩
+  ⟨List.range pre, pre, [], [], mkThreads progs, []⟩
 
 /-! ## The instances -/
 
-def protoConn : Proto := ⟨false, true, fun _ => 0, 0, .check, true⟩
+def protoConn : Proto := { mutex := false, early := true, cnt := fun _ => 0, mid := 0, final := .check, zeroUnl := true }
 /-- `CreateConnection` as found (check under `RLock`, plain insert under `Lock`). -/
-def protoConnAsFound : Proto := ⟨false, true, fun _ => 0, 0, .plain, true⟩
-def protoCtrl : Proto := ⟨false, false, fun _ => 0, 0, .evict, true⟩
-def protoTun : Proto := ⟨false, false, fun _ => 0, 0, .check, true⟩
+def protoConnAsFound : Proto := { mutex := false, early := true, cnt := fun _ => 0, mid := 0, final := .plain, zeroUnl := true }
+def protoCtrl : Proto := { mutex := false, early := false, cnt := fun _ => 0, mid := 0, final := .evict, zeroUnl := true }
+/-- `ClientRegistry.Register` with stream doubles whose `Close()` is a gate: the registry lock `r.mu`
+is the mutex, taking it is fused with the first step, the evicting thread parks inside `Close()`. -/
+def protoCtrlX : Proto := { mutex := true, early := false, cnt := fun _ => 0, mid := 0, final := .evict, zeroUnl := true,
+                            fused := true, sections := 1 }
+/-- the two-section variant (seeded regression `register-evict-then-insert-two-sections`). -/
+def protoCtrlX2 : Proto := { protoCtrlX with sections := 2 }
+def protoTun : Proto := { mutex := false, early := false, cnt := fun _ => 0, mid := 0, final := .check, zeroUnl := true }
 /-- mapping handler as the harness can schedule it (no stop between `Load` and `CompareAndSwap`). -/
-def protoMap : Proto := ⟨false, false, fun _ => 0, 0, .check, true⟩
+def protoMap : Proto := { mutex := false, early := false, cnt := fun _ => 0, mid := 0, final := .check, zeroUnl := true }
 /-- mapping handler at atomic-instruction granularity. -/
-def protoMapCas : Proto := ⟨false, true, fun _ => 0, 0, .cas, true⟩
+def protoMapCas : Proto := { mutex := false, early := true, cnt := fun _ => 0, mid := 0, final := .cas, zeroUnl := true }
 /-- mapping handler as found (`Load`, check, separate `Add`). -/
-def protoMapAsFound : Proto := ⟨false, true, fun _ => 0, 0, .plain, true⟩
-def protoCode : Proto := ⟨true, true, fun n => n, 3, .plain, false⟩
-def protoMapq : Proto := ⟨true, true, fun _ => 0, 0, .plain, false⟩
+def protoMapAsFound : Proto := { mutex := false, early := true, cnt := fun _ => 0, mid := 0, final := .plain, zeroUnl := true }
+def protoCode : Proto := { mutex := true, early := true, cnt := fun n => n, mid := 3, final := .plain, zeroUnl := false }
+def protoMapq : Proto := { mutex := true, early := true, cnt := fun _ => 0, mid := 0, final := .plain, zeroUnl := false }
 /-- quotas as found: count-then-create without mutual exclusion. -/
-def protoCodeAsFound : Proto := ⟨false, true, fun n => n, 3, .plain, false⟩
+def protoCodeAsFound : Proto := { mutex := false, early := true, cnt := fun n => n, mid := 3, final := .plain, zeroUnl := false }
 
 end Tunnox.C17
